@@ -1107,6 +1107,118 @@ def rule_C3(ctx, prog, label, rule='C3'):
     return rr
 
 
+def _in_condition(n, fs):
+    """the condition (If / While / Do / For / ?:) whose value the expression node n contributes to, if any"""
+    cur = n
+    p = fs.parent.get(cur.uid)
+    while p is not None:
+        if p.kind in ('IfStmt', 'WhileStmt', 'ConditionalOperator') and p.kids[0] is cur:
+            return p
+        if p.kind == 'DoStmt' and p.kids[-1] is cur:
+            return p
+        if p.kind == 'ForStmt' and len(p.kids) > 2 and p.kids[2] is cur:
+            return p
+        if p.kind in ('CompoundStmt', 'DeclStmt', 'CallExpr'):
+            return None
+        cur = p
+        p = fs.parent.get(p.uid)
+    return None
+
+
+def rule_C3c(ctx, prog, label, rule='C3c'):
+    """Library-wide: a word loaded from a matrix row that decides a branch (directly, or through a local it initialises) is
+    an interior word, or is masked with the valid-bit mask of its matrix, or contributes a single addressed bit
+    (`& (m4ri_one << c)`, `>> c & 1`).  Otherwise bits past the last column - foreign data when the matrix is a window -
+    steer the control flow."""
+    rr = RuleResult(rule, 'control-deciding loads: a word of a matrix row that reaches a condition is interior, masked with the valid-bit mask, or reduced to one addressed bit')
+    V = Verdicts(ctx, prog)
+    MA = V.MA
+    for f in sorted(prog.all_funcs(), key=lambda f: (f.file, f.line)):
+        if f.name in OBSERVERS:
+            continue      # decided by C3 with its own tables
+        fs = None
+        for n in f.body.walk():
+            if n.kind != 'ImplicitCastExpr' or n.cast != 'LValueToRValue':
+                continue
+            l = strip(n.kids[0], casts=True)
+            if l.kind != 'ArraySubscriptExpr' or (l.type or '').replace('const', '').strip() != 'word':
+                continue
+            if fs is None:
+                fs = FuncSym(f)
+                MA._cur_f = f
+            o = MA.pointer_origin(l.kids[0], fs)
+            if o is None:
+                continue
+            # climb through the value expression: note a discharging mask on the way; stop at a condition or at a local
+            ok, why = False, ''
+            cond = None
+            cur = n
+            p = fs.parent.get(cur.uid)
+            while p is not None:
+                if p.kind in ('IfStmt', 'WhileStmt', 'ConditionalOperator') and p.kids[0] is cur:
+                    cond = p
+                    break
+                if p.kind == 'DoStmt' and p.kids[-1] is cur:
+                    cond = p
+                    break
+                if p.kind == 'ForStmt' and len(p.kids) > 2 and p.kids[2] is cur:
+                    cond = p
+                    break
+                if p.kind == 'VarDecl':
+                    for u in f.body.walk():
+                        if u.kind == 'DeclRefExpr' and u.refid == p.id and _in_condition(u, fs) is not None:
+                            cond = _in_condition(u, fs)
+                            break
+                    break
+                if p.kind == 'UnaryOperator' and p.op == '!':
+                    cur = p
+                    p = fs.parent.get(p.uid)
+                    continue
+                if p.kind not in ('ParenExpr', 'ImplicitCastExpr', 'BinaryOperator', 'CStyleCastExpr'):
+                    break
+                if p.kind == 'BinaryOperator' and not ok:
+                    left = p.kids[0] is cur or any(x is cur for x in p.kids[0].walk())
+                    other = p.kids[1] if left else p.kids[0]
+                    if p.op == '&':
+                        o0 = strip(other, casts=True)
+                        for _ in range(3):
+                            if o0.kind == 'DeclRefExpr' and o0.refkind == 'VarDecl' and fs.single_def(o0.refid) is not None:
+                                o0 = strip(fs.single_def(o0.refid), casts=True)
+                        if o0.kind == 'ArraySubscriptExpr':
+                            ok, why = True, 'one bit selected by a per-column mask table'
+                        elif (o0.kind == 'DeclRefExpr' and o0.ref == 'm4ri_one') or int_value(o0) == 1:
+                            ok, why = True, 'single bit'
+                        elif o0.kind == 'BinaryOperator' and o0.op == '<<' and ((strip(o0.kids[0], casts=True).kind == 'DeclRefExpr' and strip(o0.kids[0], casts=True).ref == 'm4ri_one') or int_value(strip(o0.kids[0], casts=True)) == 1):
+                            ok, why = True, 'single addressed bit'
+                        else:
+                            m = MA.mask_of(other, fs, p)
+                            if m is not None and m.within_hb(None):
+                                own = V._mask_owner(m)
+                                if own in (X_ := o[0], '<param>') or (own is not None and V.width_le(f, own, o[0]) and V.width_le(f, o[0], own)):
+                                    ok, why = True, 'masked by %r' % m
+                    elif p.op in ('==', '!=', '<', '>', '<=', '>=', '&&', '||', '^', '|', '>>', '<<', '+', '-'):
+                        pass
+                    else:
+                        pass
+                cur = p
+                p = fs.parent.get(p.uid)
+            if cond is None:
+                continue
+            st = Store()
+            st.node, st.func, st.lhs, st.bump, st.owner, st.dest = l, f, l, False, None, []
+            pos, info = MA.classify_pos(st, fs)
+            X = o[0]
+            rr.instances += 1
+            if pos == 'INTERIOR':
+                ok, why = True, 'interior word'
+            rr.ob(ok, dict(function=f.name, load=pp(l)[:40], position=pos, discharged_by=why),
+                  Finding(rule, '%s|%s|%s|%s' % (rule, f.name, X, pos), l.loc, f.name,
+                          'word `%s` of %s (position %s) decides `%s` without the valid-bit mask: bits past the last column (the parent\'s data, for a window) steer the control flow'
+                          % (pp(l)[:40], X, pos, pp(cond.kids[0] if cond.kind != 'DoStmt' else cond.kids[-1])[:50]), dict(posinfo=info), label))
+    rr.require_floor(5, 'control-deciding loads outside the observers')
+    return rr
+
+
 def self_equal_dims(f, a, b):
     """Within the observers the second operand's dimensions are compared with the first's before any word is read
     (C3b checks that); their masks coincide."""
